@@ -644,7 +644,7 @@ package types
 //@   for C13 C18
 //@   ensures [fieldsCopied] psh != nil ==> r.Total == psh.Total && len(r.Hash) == 32 && content(r.Hash) == content(psh.Hash)
 //@ func (p *Proposal) ToProto() (r *kproto.Proposal)
-//@   for C13 C18
+//@   for C13 C18 C11
 //@   ensures r != nil
 //@   ensures [fieldsCopied] p != nil ==> fresh(r) && r.Height == p.Height && r.Round == p.Round && r.PolRound == p.POLRound && r.Timestamp == p.Timestamp && r.Signature == p.Signature && content(r.BlockID.Hash) == content(p.POLBlockID.Hash) && r.BlockID.PartSetHeader.Total == p.POLBlockID.PartsHeader.Total && content(r.BlockID.PartSetHeader.Hash) == content(p.POLBlockID.PartsHeader.Hash)
 //@ func ProposalFromProto(pp *kproto.Proposal) (r *Proposal, err error)
@@ -734,7 +734,6 @@ package types
 //@ spec func signerHashOf(s Signer, tx *Transaction) common.Hash
 //@ trusted func (s Signer) Hash(tx *Transaction) (r common.Hash)
 //@   ensures r == signerHashOf(s, tx)
-//@ trusted func (tx *Transaction) WithSignature(signer Signer, sig []byte) (r *Transaction, err error)
 // SignTx signs exactly the hash that Sender(signer, tx) will recover the sender from; otherwise the
 // signed transaction is attributed to an unrelated address.
 //@ func SignTx(signer Signer, tx *Transaction, prv *ecdsa.PrivateKey) (r *Transaction, err error)
@@ -769,3 +768,39 @@ package types
 //@   atcall addVerifiedVote requires [powerOfTheIndexedValidator] val != nil && votingPower == val.VotingPower && vote.ValidatorAddress == lookupAddr && lookupAddr == val.Address
 //@   atcall Verify requires [signatureCheckedForTheIndexedValidator] chainID == voteSet.chainID && address == val.Address
 //@   ensures [nilRejected] vote == nil ==> !added && err != nil
+
+// ---------------------------------------------------------------- C11: re-signing, recovery id
+// A re-signed transaction is a new object that carries the new signature values and none of the old
+// transaction's caches (hash, size, sender): the sender is recovered from the new signature.
+//@ func (tx *Transaction) WithSignature(signer Signer, sig []byte) (res *Transaction, err error)
+//@   for C11
+//@   requires tx != nil
+//@   modifies *
+//@   ensures [freshCopyWithoutCaches] err == nil ==> res != nil && res != tx && res.from.v == nil && res.hash.v == nil && res.size.v == nil
+//@   ensures [carriesTheNewSignature] err == nil ==> res.data.R == r && res.data.S == s && res.data.V == v
+// Plain (Homestead/Frontier) recovery accepts exactly V = 27 or 28.
+//@ func recoverPlain(sighash common.Hash, R, S, Vb *big.Int, homestead bool) (addr common.Address, err error)
+//@   for C11
+//@   requires R != nil && S != nil && Vb != nil && Vb.v >= 0
+//@   modifies *
+//@   opt assumecallreqs
+//@   ensures [recoveryIdIsExactly27or28] err == nil ==> old(Vb.v) == 27 || old(Vb.v) == 28
+
+// ---------------------------------------------------------------- C12: validators are ordered by the bytes of their address
+//@ func (vals ValidatorsByAddress) Less(i, j int) (r bool)
+//@   for C12
+//@   requires 0 <= i && i < len(vals) && 0 <= j && j < len(vals) && vals[i] != nil && vals[j] != nil
+//@   ensures [byteOrderOfAddresses] r <==> bytes.bytesCmp(content(vals[i].Address), content(vals[j].Address)) < 0
+
+// ---------------------------------------------------------------- C13: the commit hash covers every signature slot
+//@ func (cs *CommitSig) ToProto() (r *kproto.CommitSig)
+//@   for C13
+//@   ensures cs == nil ==> r == nil
+//@   ensures [fieldsCopied] cs != nil ==> fresh(r) && r.BlockIdFlag == cs.BlockIDFlag && content(r.ValidatorAddress) == content(cs.ValidatorAddress) && r.Timestamp == cs.Timestamp && r.Signature == cs.Signature
+//@ func (commit *Commit) Hash() (r common.Hash)
+//@   for C13
+//@   modifies *
+//@   atcall SimpleHashFromByteSlices requires [oneLeafPerSignatureSlot] len(items) == len(commit.Signatures) && (forall k int :: 0 <= k && k < len(items) ==> content(items[k]) == kproto.commitSigBytes(commit.Signatures[k].BlockIDFlag, content(commit.Signatures[k].ValidatorAddress), commit.Signatures[k].Timestamp, content(commit.Signatures[k].Signature)))
+//@   loop 1:
+//@     invariant 0 <= iter && iter <= len(commit.Signatures) && len(bs) == len(commit.Signatures) && fresh(bs)
+//@     invariant forall k int :: 0 <= k && k < iter ==> content(bs[k]) == kproto.commitSigBytes(commit.Signatures[k].BlockIDFlag, content(commit.Signatures[k].ValidatorAddress), commit.Signatures[k].Timestamp, content(commit.Signatures[k].Signature))
